@@ -395,7 +395,7 @@ def _in_child(fn):
     """Run fn(send, progress) in a forked child.  The real code is never executed in the pool worker itself: an out-of-range
     triangle index reads foreign memory and may kill the process, and whether it does depends on heap contents.  `progress(sig,
     what, want)` names the operation about to be executed (kept in shared memory); `send(obj)` ships a partial result.
-    Returns (list of partial results received, None | (wait status, sig, what, want) of the operation that killed the child)."""
+    Returns (list of partial results received, None | (wait status, sig, what, want, kind) of the operation that killed the child)."""
     mm = mmap.mmap(-1, 8192)
     r, w = os.pipe()
     pid = os.fork()
@@ -411,8 +411,8 @@ def _in_child(fn):
                     k = os.write(w, b)
                     b = b[k:]
 
-            def progress(sig, what, want):
-                b = ("%s\n%s\n%s" % (sig, what, want)).encode()[:8000]
+            def progress(sig, what, want, kind="other"):
+                b = ("%s\n%s\n%s\n%s" % (kind, sig, what.replace("\n", " "), want.replace("\n", " "))).encode()[:8000]
                 mm.seek(0)
                 mm.write(struct.pack("<I", len(b)) + b)
 
@@ -446,40 +446,41 @@ def _in_child(fn):
     if status != 0:
         mm.seek(0)
         (ln,) = struct.unpack("<I", mm.read(4))
-        txt = mm.read(ln).decode(errors="replace").split("\n", 2) if ln else []
-        txt += ["?"] * (3 - len(txt))
-        died = (status, txt[0], txt[1], txt[2])
+        txt = mm.read(ln).decode(errors="replace").split("\n", 3) if ln else []
+        txt += ["?"] * (4 - len(txt))
+        died = (status, txt[1], txt[2], txt[3], txt[0])
     mm.close()
     return parts, died
 
 
 def run_case(case):
-    parts, died = _in_child(lambda send, progress: _body(case, True, send, progress))
+    parts, died = _in_child(lambda send, progress: _body(case, (), send, progress))
     for p in parts:
         if "harness_error" in p:
             return p
     extra = _Acc()
-    if died is not None:
-        status, sig, what, want = died
+    skip = ()
+    while died is not None:
+        status, sig, what, want, kind = died
         extra.V(sig, what + ": process death (wait status %s)" % status, want, OUTSIDE if sig.endswith("sample-outside-selected-triangle") else "process death")
-        extra.nev = extra.trans = 1
-        if not parts:
-            # died before the main phase was complete: redo the case without the hooked selection-map evaluations
-            extra.classes["u:not-evaluated-after-process-death"] += 1
-            parts, died2 = _in_child(lambda send, progress: _body(case, False, send, progress))
-            for p in parts:
-                if "harness_error" in p:
-                    return p
-            if died2 is not None:
-                extra.V(died2[1], died2[2] + ": process death (wait status %s)" % died2[0], died2[3], "process death")
-                parts = parts[:1]
+        extra.nev += 1
+        extra.trans += 1
+        if parts or kind not in ("hooked", "unhooked") or kind in skip:
+            break
+        # died before the main phase was complete: redo the case without the kind of call that killed it
+        skip += (kind,)
+        extra.classes["redone-without:" + kind] += 1
+        parts, died = _in_child(lambda send, progress: _body(case, skip, send, progress))
+        for p in parts:
+            if "harness_error" in p:
+                return p
     acc = _merge(parts + [extra.dump()])
     outcome = (case["lat"], case["k"], case["first"], case["second"], case["place"], acc.nev, tuple(sorted(acc.sigs)))
     return {"viol": acc.viol, "classes": acc.classes, "outcome": outcome, "n": max(acc.nev, 1), "states": acc.states,
             "transitions": max(acc.trans, 1), "nontrivial": acc.nontrivial}
 
 
-def _body(case, hooked, send, progress):
+def _body(case, skip, send, progress):
     """the whole case, executed inside the sacrificial child: main phase -> send; u values in the rounding band of the total area -> send"""
     np, vx = _mods["np"], _mods["vx"]
     n, k, pl = case["lat"], case["k"], case["place"]
@@ -567,7 +568,7 @@ def _body(case, hooked, send, progress):
                 t += a
                 cum.append(t)
             tol_pt = 1e-9 * max(1.0, ref.scale)
-            if hooked:
+            if "hooked" not in skip:
                 banded = []
                 for lab, u in _u_lattice(ref, cum):
                     if _dangerous(ref, cum, u):
@@ -580,8 +581,8 @@ def _body(case, hooked, send, progress):
                     late.append((voxel, desc, ref, cum, tris, stored, areas, banded))
 
             # ---- constants, other callables, unhooked path (every second vertex order)
-            if (rot + rev) % 2 == 0:
-                progress("emissivity_from_function:unhooked:process-death", desc, "10 samples in the polygon")
+            if (rot + rev) % 2 == 0 and "unhooked" not in skip:
+                progress("emissivity_from_function:unhooked:process-death", desc, "10 samples in the polygon", "unhooked")
                 del _rec[:]
                 val = voxel.emissivity_from_function(_emis)
                 acc.nev += 1
@@ -629,7 +630,10 @@ def _body(case, hooked, send, progress):
             tv = grid.total_volume
             vols = [v.volume for v in grid]
             cnt = (len(grid), grid.count)
-            em = [float(x) for x in grid.emissivities_from_function(_mods["Constant3D"](CONST), 2)]
+            em = [CONST] * gl
+            if "unhooked" not in skip:
+                progress("ToroidalVoxelGrid.emissivities_from_function:process-death", desc, "%d times 2.5" % gl, "unhooked")
+                em = [float(x) for x in grid.emissivities_from_function(_mods["Constant3D"](CONST), 2)]
         except Exception as e:  # noqa
             V("ToroidalVoxelGrid:construct-or-read:raises:%s" % type(e).__name__, desc + ": " + str(e)[:200], "a grid", type(e).__name__)
             g = g % 4 + 1
@@ -694,7 +698,7 @@ def _judge(acc, progress, cclass, desc, lab, siglab, u, ok, voxel, tris, stored,
     sig = "emissivity_from_function:u=%s:coords=%s:sample-outside-selected-triangle" % (siglab, "inexact" if cclass == "inexact" else "exact")
     want = "all sample points inside triangle(s) %s of %s" % (ok, [list(t) for t in tris])
     what = "%s, u=%r" % (desc, u)
-    progress(sig, what, want)
+    progress(sig, what, want, "hooked")
     acc.nev += 1
     acc.trans += 1
     try:
